@@ -11,4 +11,4 @@ void sched_main_done();
 void nv_leave(int code) __attribute__((noreturn));                                       // _exit of a schedule process (dumps the gcov counters first under -DVERIF_IMPLCOV)
 int sched_self();
 long sched_steps();
-int sched_clock_frozen();                                         // 1 while a ThreadPool is being constructed (harness-created: flag; lazily created: startProc holds _threadPoolLock)
+int sched_clock_frozen();                                         // 1 while a ThreadPool is being constructed (harness-created: flag; lazily created: startProc holds _threadPoolLock and has not yet published the pool)
